@@ -278,6 +278,13 @@ def _subst(pat, k):
     return pat.replace("K", k)
 
 
+# names that only become Python identifiers through hy.mangle: the compiled tree must carry the mangled spelling in every
+# identifier position, otherwise the unparsed text does not parse (or names another variable)
+MANGLED_NAMES = ["a-b", "ok?", "*v*", "-lead", "caf\u00e9-x"]
+MANGLED_POSITIONS = {k: v for k, v in POSITIONS.items()
+                     if '"K' not in v and 'K"' not in v and "K." not in v and ".K" not in v and k not in ("keyword-argument", "class-keyword-argument", "quoted-symbol")}
+
+
 def mincing(names=None, positions=None):
     for pos, pat in (POSITIONS if positions is None else positions).items():
         for k in (KEYWORDS if names is None else names):
